@@ -66,6 +66,11 @@ def run(ctx):
     cor = [job(D, g, m, c, s, target="sphere_corner", opts={"max_fun_evals": b}) for D in Ds for g in ("lin", "log") for m in ("spec", "decl", "det")
            for c in (None, "ball") for b in ((80,) if q else (80, 150)) for s in seeds]
     st = explore(cor, ["ans", "noise"], 0, sink, stats=st, name="corner/b0")
+    # (b2) degenerate but well-behaved landscapes: constant target (all observations tie), very large / very small scale
+    deg = [job(D, g, m, c, seeds[0], target=t) for D in Ds[:2] for g in ("lin", "log") for m in ("det", "auto", "decl", "spec") for c in (None, "ball")
+           for t in ("const", "sphere_big", "sphere_small", "plateau") if not (q and c == "ball" and g == "log")]
+    deg += [dict(job(D, g, m, None, seeds[0], target=t), noise_scale=0.0) for D in Ds[:2] for g in ("lin", "log") for m in ("decl", "spec") for t in ("const", "plateau", "sphere_in")]
+    st = explore(deg, ["ans", "noise"], 0, sink, stats=st, name="degenerate-landscapes/b0")
     # (c) budget windows above the initial design x final samples (noisy) and deterministic
     n0 = {}
     probe = [job(D, "lin", m, None, seeds[0], opts={"max_fun_evals": 90}) for m in ("auto", "decl", "spec") for D in (1, 2)]
